@@ -74,7 +74,7 @@ def _type_time(db, chk, m, cls, G):
     if not ok:
         return
     # 2 bit values
-    mp = r.env.get("kernel_t_mapping")
+    mp = next((v for v in r.env.values() if isinstance(v, dict) and v and set(v) <= set(types) and all(isinstance(x, int) for x in v.values())), None)
     want = {ty: 1 << i for i, ty in enumerate(types)}
     vals_ok = isinstance(mp, dict) and dict(mp) == want
     if isinstance(mp, dict) and not vals_ok:
@@ -266,12 +266,12 @@ def _outer(db, chk, m, cls):
             continue
         r = runs[0]
         want = ["COMPUTATION", "COMMUNICATION"] + (["MEMORY"] if mem else [])
-        tl = r.env.get("kernel_type_to_analysis")
+        tl = next((v for v in r.env.values() if isinstance(v, list) and v and all(isinstance(x, str) and x in ("COMPUTATION", "COMMUNICATION", "MEMORY", "OTHER") for x in v)), None)
         chk.ob(rule, f"types analysed (include_memory_kernels={mem})", tl == want, where, found=tl, accepted=want)
         if len(calls["type_time"]) == 1:
             pos, kw, node = calls["type_time"][0]
             gk = pos[0] if pos else kw.get("gpu_kernels")
-            SYM = to_term(r.env.get("sym_table"))
+            SYM = ("call", "obj('symtab').get_sym_table")
             kt = KT.kernel_type_term(db, ("getitem", SYM, T.col(TR, "name")))
             okk = isinstance(gk, Frame) and gk.col("kernel_type") == kt
             chk.ob(rule, f"[mem={mem}] kernel_type column = get_kernel_type of the decoded name", okk, m.loc(node), found=T.show(gk.col("kernel_type"))[:200] if isinstance(gk, Frame) else None,
@@ -291,7 +291,7 @@ def _outer(db, chk, m, cls):
             b.update(kw)
             fr = b.get("gpu_kernel_time")
             okrows = isinstance(fr, Frame) and fr.base == TR and T.cmp("==", fr.col("kernel_type"), T.C(ty)) in (fr.rows[1] if fr.rows[0] == "and" else (fr.rows,))
-            okname = isinstance(fr, Frame) and fr.col("name") == ("getitem", to_term(r.env.get("sym_table")), T.col(TR, "name")) and fr.col("dur") == T.col(TR, "dur")
+            okname = isinstance(fr, Frame) and fr.col("name") == ("getitem", ("call", "obj('symtab').get_sym_table"), T.col(TR, "name")) and fr.col("dur") == T.col(TR, "dur")
             chk.ob(rule, f"[mem={mem}] per-kernel table of {ty}: rows of that type, decoded names, own durations", okrows and okname, m.loc(node),
                    found=[T.show(fr.rows)[:160], T.show(fr.col("name"))[:120]] if isinstance(fr, Frame) else None, accepted=f"kernel_type == {ty}")
             chk.ob(rule, f"[mem={mem}] {ty}: num_kernels / duration_ratio bound to the like-named parameters",
